@@ -108,13 +108,6 @@ theorem table_separates {exempt : List String} {dyn : List Row} {groups : List (
 
 /-! ### the scheme whose rules are read off a table -/
 
-def findRow (rows : List Row) (c : Nat) : Option Row := rows.find? (fun r => r.id == c)
-
-def ruleOf (rows : List Row) (c : Nat) : Rule :=
-  match findRow rows c with
-  | some r => r.rule
-  | none => Rule.default 0 0
-
 theorem findRow_spec {rows : List Row} {c : Nat} {r : Row} (h : findRow rows c = some r) : r ∈ rows ∧ r.id = c := by
   unfold findRow at h
   exact ⟨List.mem_of_find?_eq_some h, by simpa using List.find?_some h⟩
